@@ -20,6 +20,14 @@ impl ClusterId {
     pub const END_OF_FILE: ClusterId = ClusterId(0xFFFF_FFFF);
 }
 
+#[cfg(feature = "verif-hooks")]
+impl ClusterId {
+    /// Verification hook: the raw cluster number.
+    pub fn verif_raw(self) -> u32 {
+        self.0
+    }
+}
+
 impl core::ops::Add<u32> for ClusterId {
     type Output = ClusterId;
     fn add(self, rhs: u32) -> ClusterId {
